@@ -238,10 +238,10 @@ def ob_contained(codes: List[int], leading: bool, op: int) -> bool:
 def obligations(tier):
     q = tier == "quick"
     obs = []
-    for b in (0, 1):
-        bn = "MemoryStore" if b == 0 else "FileStore/ShimFS"
+    for b in (0, 1, 2):
+        bn = ["MemoryStore", "FileStore/ShimFS", "IndexerStore(MemoryStore)"][b]
         for op in range(len(MUTATORS)):
-            for ki in ([None] if op != 6 else list(range(len(sl.U)))):
+            for ki in ([None] if op != 6 else (list(range(len(sl.U))) if b != 2 else [0])):
                 obs.append(Ob("ob_readonly_universe", dict(backend=b, op=op, ki=ki), timeout=150 if q else 900, per_path=20,
                               bounds="backend=%s mutator=%s; all %d valid 7-key pre-states x universe key %s x 13 write modes (openbin only)" % (
                                   bn, MUTATORS[op], len(sl.VALID), "any" if ki is None else sl.U[ki])))
@@ -249,7 +249,7 @@ def obligations(tier):
                           bounds="backend=%s mutator=%s; all %d valid pre-states x free symbolic key |k|<=3, payload |b|<=2, metadata int, 13 write modes (openbin only)" % (
                               bn, MUTATORS[op], len(sl.VALID))))
         obs.append(Ob("ob_readonly_reads", dict(backend=b), timeout=100 if q else 600, per_path=20,
-                      bounds="backend=%s; all valid 6-key pre-states, all observers + openbin('r')" % ("MemoryStore" if b == 0 else "FileStore/ShimFS")))
+                      bounds="backend=%s; all valid 7-key pre-states, all observers + openbin('r')" % bn))
     maxlen = 3 if q else 4
     for via in ("direct", "mount", "resource"):
         ops = range(len(OPS)) if via != "resource" else [0, 0]
